@@ -15,10 +15,10 @@ META = {
     "rule": "graphs = every well-posed member of F(3, m<=2) incl. custom unary/ternary edges + SLAM families n=3 (thorough: 6); representation changes R enumerated completely per graph: "
     "every vertex-list permutation (fixed flags travel), every edge-list permutation (m<=4, else reversal/rotation), every injective id relabeling from a 4-id (thorough 6-id) pool incl. "
     "negative/huge ids, theta -> theta + 2 pi k (k in +-1, +-2, 3, -5) on every single SE(2) vertex / measurement / offset and on all at once, EVERY sign pattern of quaternion negation over all "
-    "SE(3) vertices, measurements and offsets (2^q, q<=8), every subset of edges split into two half-information edges, information scaling c in {1e-12, 1e-6, 1e-3, 0.5, 2, 1e3}. At every state of the "
+    "SE(3) vertices, measurements and offsets (2^q, q<=8), every subset of edges split into two half-information edges, the same graph written to .g2o text under 5 id maps (plain, 2^60+3i, -(2^53)-1-2i, 2^53+1+i, alternating) and loaded: same chi2 and same 2-iteration result; information scaling c in {1e-12, 1e-6, 1e-3, 0.5, 2, 1e3}. At every state of the "
     "trajectory x_{k+1} = GN(x_k): chi2(R(x)) = c chi2(x) and GN(R(x)) = R(GN(x)). non-trivial = R is not the identity and the step moves a vertex",
     "assumptions": ["finite graph family; information matrices have translation-rotation cross terms", "tolerance 1e-11 scaled (measured rounding noise <= 2e-14 scaled); ill-conditioned states end the trajectory (counted)"],
-    "required_classes": ["R:vertex_perm", "R:edge_perm", "R:relabel", "R:angle_2pi", "R:quat_sign", "R:split", "R:scale", "kind:SE2", "kind:SE3", "custom_edges", "slam_family", "shape_family", "cross_term_information"],
+    "required_classes": ["R:relabel_through_loader", "R:vertex_perm", "R:edge_perm", "R:relabel", "R:angle_2pi", "R:quat_sign", "R:split", "R:scale", "kind:SE2", "kind:SE3", "custom_edges", "slam_family", "shape_family", "cross_term_information"],
     "bounds": {"quick": "shape family: 1 step (2 states); SLAM n=3: 5 steps; id pool of 4", "thorough": "5 steps everywhere; SLAM n in {3,6}; id pool of 6"},
 }
 
@@ -230,12 +230,89 @@ def spec_of(gd, seed):
 
 def chunks(tier, seed):
     gs = graphs(tier, seed)
-    return [("g", k) for k in range(len(gs))]
+    return [("g", k) for k in range(len(gs))] + [("io", k) for k in range(4)]
+
+
+IO_IDMAPS = [
+    lambda i: i,
+    lambda i: 2**60 + 3 * i,
+    lambda i: -(2**53) - 1 - 2 * i,
+    lambda i: 9007199254740993 + i,
+    lambda i: (-1) ** i * (1000 + 7 * i),
+]
+
+
+def _render_g2o(spec, idmap):
+    """my own writer (repr of every double): the same physical graph as a .g2o text under an id relabeling."""
+    from ..ref import g2o as RG
+
+    out = []
+    for v in spec["vertices"]:
+        tag = {"SE2": "VERTEX_SE2", "SE3": "VERTEX_SE3:QUAT"}[v["kind"]]
+        out.append("%s %d %s" % (tag, idmap(v["id"]), " ".join(repr(float(x)) for x in v["pose"])))
+    for e in spec["edges"]:
+        tag = "EDGE_SE2" if len(e["z"]) == 3 else "EDGE_SE3:QUAT"
+        out.append("%s %d %d %s %s" % (tag, idmap(e["ids"][0]), idmap(e["ids"][1]), " ".join(repr(float(x)) for x in e["z"]), " ".join(repr(float(x)) for x in RG.upper_from_sym(e["om"]))))
+    return "\n".join(out) + "\n"
+
+
+def _eval_io(case):
+    """relabeling seen through the loader: the same graph written with other ids loads to the same physical graph."""
+    import os
+    import shutil
+    import tempfile
+
+    import numpy as np
+
+    from .. import gbuild as GB
+    from .. import impl as I
+    from ..ref import geom as G
+
+    kind = ("SE2", "SE3")[case["k"] % 2]
+    n = (3, 6)[case["k"] // 2]
+    spec, _ = SF.make("ring", kind, n, "alt", "sin", 0.2 if kind == "SE2" else 0.1, 0.1 if kind == "SE2" else 0.05, 0.02, case["seed"])
+    spec = {"vertices": [v for v in spec["vertices"] if v["id"] < 1000], "edges": [e for e in spec["edges"] if e["type"] == "odo"]}
+    msgs = []
+    tmp = tempfile.mkdtemp(prefix="vf-c08-")
+    try:
+        res = []
+        for mi, idmap in enumerate(IO_IDMAPS):
+            path = os.path.join(tmp, "g%d.g2o" % mi)
+            with open(path, "w") as f:
+                f.write(_render_g2o(spec, idmap))
+            try:
+                g = I.Graph.from_g2o(path)
+            except Exception as ex:
+                msgs.append("loading the graph written with id map #%d raised %s: %s" % (mi, type(ex).__name__, ex))
+                continue
+            with np.errstate(all="ignore"):
+                c0 = float(g.calc_chi2())
+            GB.optimize(g, tol=0.0, max_iter=2, fix_first_pose=True)
+            res.append((mi, c0, {v.id: I.comps(v.pose) for v in I.graph_vertices(g)}, idmap))
+        if res:
+            _, cA, pA, mA = res[0]
+            for mi, c0, pp, idmap in res[1:]:
+                if not abs(c0 - cA) <= 1e-11 * (1 + abs(cA)):
+                    msgs.append("id map #%d: chi2 of the loaded graph is %.17g, with plain ids %.17g" % (mi, c0, cA))
+                for v in spec["vertices"]:
+                    a, b = pA.get(mA(v["id"])), pp.get(idmap(v["id"]))
+                    if b is None:
+                        msgs.append("id map #%d: vertex %r missing after load" % (mi, idmap(v["id"])))
+                        break
+                    if G.phys_diff(kind, a, b) > 1e-10:
+                        msgs.append("id map #%d: after 2 iterations vertex %r differs from the plain-id graph by %.3g" % (mi, idmap(v["id"]), G.phys_diff(kind, a, b)))
+                        break
+    finally:
+        shutil.rmtree(tmp, ignore_errors=True)
+    return msgs, {"states": len(IO_IDMAPS), "squares": len(IO_IDMAPS) - 1, "ratio": 0.0, "classes": ["R:relabel_through_loader", "kind:" + kind], "rclass": "relabel_io"}
 
 
 def run_chunk(chunk, tier, seed):
-    _, gi = chunk
+    typ, gi = chunk
     acc = Acc(ID, signature)
+    if typ == "io":
+        _do(acc, {"t": "io", "k": gi, "seed": seed})
+        return acc
     gd = graphs(tier, seed)[gi]
     spec = spec_of(gd, seed)
     steps = 5 if (tier == "thorough" or gd[0] == "slam") else 1
@@ -269,11 +346,13 @@ def eval_case(case):
 
 def signature(case, msgs):
     _, info = _eval(case)
-    return {"rclass": info.get("rclass"), "family": case["graph"][0]}
+    return {"rclass": info.get("rclass"), "family": (case.get("graph") or ["io"])[0]}
 
 
 def _eval(case):
     try:
+        if case.get("t") == "io":
+            return _eval_io(case)
         gd = (case["graph"][0], case["graph"][1])
         spec = spec_of(gd, case["seed"])
         cls, rep = reps_for(spec, case["tier"])[case["rep"]]
